@@ -1,51 +1,69 @@
 """The corpus: which declarations the stage-2 properties are proved on (DESIGN.md section 3).
-Deterministic; the thorough tier adds systematically enumerated and VERIF_SEED-driven layouts."""
+Deterministic; the thorough tier adds systematically enumerated and VERIF_SEED-driven layouts.
+Every struct is checked against the C09 acceptance rule when the corpus is built."""
 import random
 from .model import *
 
 ARB_Q = (1, 7, 9, 15, 17, 24, 31, 33, 48, 63, 65, 127)
+WORDS = (8, 16, 32, 64)
 
 
-def _ft_for(n):
-    return T_bool() if n == 0 else T_u(n)
+def S(pid, base, fields, default=None, debug=False, name=None):
+    s = Struct(name or f"S{pid}", base, fields, default=default, debug=debug)
+    assert s.valid(), f"corpus declaration {pid} violates the C09 rule"
+    return s
 
 
-def contiguous_struct(pid, base, placements, access="rw", default=None, name=None):
-    """placements: [(lo, n, kind)] kind in 'u' (uint/native by width), 'b' (bool)"""
+def F(name, ty, ranges, array=None, access="rw"):
+    if isinstance(ranges, tuple):
+        ranges = [ranges]
+    return Field(name, ty, list(ranges), array=array, access=access)
+
+
+def contiguous_struct(pid, base, placements, access="rw", default=None):
     fields = []
     for k, (lo, n, kind) in enumerate(placements):
         ty = T_bool() if kind == "b" else T_u(n)
         fields.append(Field(f"f{k}", ty, [(lo, n)], access=access))
-    return Struct(name or f"S{pid}", base, fields, default=default)
+    return S(pid, base, fields, default=default)
 
 
-def boundary_placements(base):
-    """bit 0, unaligned interior, ending at the top bit, full width, one below full width, bools at both ends"""
-    W = base
-    out = []
-    out.append((0, 1, "b"))
-    out.append((W - 1, 1, "b"))
+def boundary_placements(W):
+    """bit 0, unaligned interior, ending at the top bit, full width, one below full width, and every
+    storage-word boundary (8/16/32/64) approached from both sides"""
+    out = [(0, 1, "b"), (W - 1, 1, "b")]
     if W >= 3:
-        out.append((1, min(W - 2, 5), "u"))           # unaligned interior
-        out.append((W - min(W - 1, 3), min(W - 1, 3), "u"))   # ending at the top bit
+        out.append((1, min(W - 2, 5), "u"))
+        out.append((W - min(W - 1, 3), min(W - 1, 3), "u"))
     if W >= 2:
-        out.append((0, W - 1, "u"))                   # one below full width
-        out.append((1, W - 1, "u"))                   # one below, touching the top
-    if W <= 128:
-        out.append((0, W, "u"))                       # full width (special-cased in the generator)
-    for n in (8, 16, 32, 64):
+        out.append((0, W - 1, "u"))
+        out.append((1, W - 1, "u"))
+    out.append((0, W, "u"))
+    for n in WORDS:
         if n < W:
-            out.append((W - n, n, "u"))               # native type ending at the top bit
-            if W - n - 1 >= 0 and n + 1 < W:
-                out.append((1, n, "u"))               # native type, unaligned
-    if W > 9:
+            out.append((W - n, n, "u"))
+            out.append((0, n, "u"))
+            if n + 1 < W:
+                out.append((1, n, "u"))
+    for k in WORDS:
+        if k < W:
+            out.append((k - 1, 1, "b"))
+            out.append((k, 1, "b"))
+            if k >= 3:
+                out.append((k - 3, 3, "u"))          # ends just below the boundary
+            if k + 3 <= W:
+                out.append((k, 3, "u"))              # starts at the boundary
+            if k - 2 >= 0 and k + 1 < W:
+                out.append((k - 2, 3, "u"))          # straddles: highest bit index == k
+            for n in WORDS:
+                lo = k - n + 1
+                if lo >= 0 and k < W and n < W:
+                    out.append((lo, n, "u"))         # native field whose highest bit index is exactly k
+    if W > 12:
         out.append((3, 9, "u"))
-    # drop duplicates and anything not expressible (a full-width field of an arbitrary base is uN itself: fine)
     seen, res = set(), []
     for lo, n, k in out:
-        if n < 1 or lo + n > W or (lo, n, k) in seen:
-            continue
-        if k == "u" and n == 1 and False:
+        if n < 1 or lo < 0 or lo + n > W or (lo, n, k) in seen:
             continue
         seen.add((lo, n, k))
         res.append((lo, n, k))
@@ -56,28 +74,352 @@ def all_ranges(W):
     return [(lo, n, "u") for lo in range(W) for n in range(1, W - lo + 1)]
 
 
-def programs_c01_c02(tier):
+# ------------------------------------------------------------------------------------------------
+def programs_contiguous(tier):
     progs = []
     bases = [8, 16, 32, 64, 128] + list(ARB_Q)
-    if tier == "quick":
-        # every base with its boundary placements, fields spread over few structs
-        for b in bases:
-            pl = boundary_placements(b)
-            if tier == "quick" and b not in (8, 32, 128, 7, 24, 33, 127):
-                pl = pl[:6]
-            progs.append(Program(f"bd{b}", structs=[contiguous_struct(f"bd{b}", b, pl)], props=("C01", "C02", "C16", "C06", "C11" if b not in NATIVE else "C06", "C12")))
-        # exhaustive small bases
-        progs.append(Program("all5", structs=[contiguous_struct("all5", 5, all_ranges(5))], props=("C01", "C02")))
-    else:
-        for b in bases:
-            progs.append(Program(f"bd{b}", structs=[contiguous_struct(f"bd{b}", b, boundary_placements(b))],
-                                 props=("C01", "C02", "C16", "C06", "C11", "C12")))
-        progs.append(Program("all5", structs=[contiguous_struct("all5", 5, all_ranges(5))], props=("C01", "C02", "C16")))
+    for b in bases:
+        pl = boundary_placements(b)
+        if tier == "quick" and len(pl) > 14:
+            # keep the classic boundaries and a deterministic spread of the word-boundary cases
+            keep = pl[:7] + pl[7::max(1, (len(pl) - 7) // 7)][:7]
+            pl = keep
+        props = ["C01", "C02", "C16", "C06"] + (["C11"] if b not in NATIVE else []) + ["C12"] * (b in (8, 24))
+        progs.append(Program(f"bd{b}", structs=[contiguous_struct(f"bd{b}", b, pl)], props=tuple(props)))
+    progs.append(Program("all5", structs=[contiguous_struct("all5", 5, all_ranges(5))], props=("C01", "C02")))
+    if tier == "thorough":
         progs.append(Program("all8", structs=[contiguous_struct("all8", 8, all_ranges(8))], props=("C01", "C02", "C16")))
+        progs.append(Program("all9", structs=[contiguous_struct("all9", 9, all_ranges(9))], props=("C01", "C02", "C11")))
+    return progs
+
+
+def mk_enum(name, bits, exhaustive, values=None, n_variants=None, repr_=None):
+    if values is None:
+        total = 1 << bits
+        if exhaustive == "true":
+            values = list(range(total))
+        else:
+            k = n_variants or min(3, total - 1) or 1
+            # spread: 0, the top value, and something in the middle
+            cand = [0, total - 1, total // 2, 1, total // 3]
+            values = []
+            for c in cand:
+                if c not in values and 0 <= c < total:
+                    values.append(c)
+                if len(values) == k:
+                    break
+    return Enum(name, bits, [(f"V{i}", v) for i, v in enumerate(values)], exhaustive=exhaustive, repr=repr_)
+
+
+def programs_arrays(tier):
+    progs = []
+    e1 = mk_enum("Ear1", 1, "true")
+    e2 = mk_enum("Ear2", 2, None, values=[0, 1, 3])
+    progs.append(Program("ar8", enums=[], structs=[S("ar8", 8, [
+        F("b", T_bool(), (0, 1), array=(8, None)),
+    ])], props=("C03", "C16", "C12")))
+    progs.append(Program("ar8b", structs=[S("ar8b", 8, [
+        F("a", T_u(3), (0, 3), array=(2, 4)),      # stride > width (gap bit 3), last element ends at bit 6
+        F("t", T_bool(), (7, 1)),
+    ])], props=("C03", "C16", "C12", "C13")))
+    progs.append(Program("ar16", enums=[e1, e2], structs=[S("ar16", 16, [
+        F("n", T_u(4), (0, 4), array=(2, None)),
+        F("e", T_enum(e2), (8, 2), array=(3, 2)),
+        F("y", T_enum(e1), (14, 1), array=(2, 1)),  # last element at the top bit
+    ])], props=("C03", "C08", "C16")))
+    progs.append(Program("ar32", structs=[S("ar32", 32, [
+        F("b", T_u(8), (0, 8), array=(3, None)),
+        F("h", T_u(3), (24, 3), array=(2, 5)),     # 24..26, 29..31: ends at the top bit, stride > width
+    ])], props=("C03", "C16")))
+    progs.append(Program("ar64", structs=[S("ar64", 64, [
+        F("w", T_u(16), (0, 16), array=(4, None)),  # K maximal
+    ])], props=("C03", "C16", "C13")))
+    progs.append(Program("ar128", structs=[S("ar128", 128, [
+        F("q", T_u(32), (0, 32), array=(3, 48)),   # stride > width, last ends at 127
+        F("s", T_i(8), (32, 8), array=(2, 48)),
+    ])], props=("C03", "C05", "C16")))
+    progs.append(Program("ar24", structs=[S("ar24", 24, [
+        F("x", T_u(4), (0, 4), array=(6, None)),   # fills u24 exactly, K maximal
+    ])], props=("C03", "C11", "C16", "C13")))
+    progs.append(Program("ar48", structs=[S("ar48", 48, [
+        F("x", T_u(7), (2, 7), array=(5, 9)),      # 2..8, 11..17, ... , 38..44
+        F("t", T_bool(), (47, 1), array=None),
+        F("u", T_bool(), (45, 1), array=(2, 1)),
+    ])], props=("C03", "C11", "C16")))
+    if tier == "thorough":
+        progs.append(Program("ar127", structs=[S("ar127", 127, [
+            F("x", T_u(63), (1, 63), array=(2, None)),
+            F("b", T_bool(), (0, 1)),
+        ])], props=("C03", "C11", "C16")))
+        progs.append(Program("ar128b", structs=[S("ar128b", 128, [
+            F("b", T_bool(), (0, 1), array=(128, None)),
+        ])], props=("C03", "C16")))
+        progs.append(Program("ar64s", structs=[S("ar64s", 64, [
+            F("s", T_i(16), (0, 16), array=(3, 24)),
+            F("t", T_i(8), (56, 8)),
+        ])], props=("C03", "C05", "C16")))
+    return progs
+
+
+def programs_noncontig(tier):
+    progs = []
+    e4 = mk_enum("Enc4", 4, None, values=[0, 9, 15, 6])
+    progs.append(Program("nc16", structs=[S("nc16", 16, [
+        F("a", T_u(8), [(0, 4), (8, 4)]),                 # ascending
+        F("r", T_u(8), [(12, 4), (4, 4)]),                # reversed
+    ])], props=("C04", "C16", "C12", "C13")))
+    progs.append(Program("nc32", structs=[S("nc32", 32, [
+        F("imm", T_u(12), [(7, 5), (25, 7)]),              # ends at the top bit
+        F("sh", T_u(6), [(2, 1), (0, 1), (4, 1), (1, 1), (5, 2)]),   # shuffled single bits + a range (bits 0,1,2,4,5,6)
+        F("m", T_u(8), [(12, 3), (20, 5)]),
+    ])], props=("C04", "C16", "C12")))
+    progs.append(Program("nc8", structs=[S("nc8", 8, [
+        F("x", T_u(4), [(0, 1), (2, 1), (4, 1), (6, 1)], array=(2, 1)),   # interleaved elements, last reaches bit 7
+    ])], props=("C04", "C03", "C16", "C13")))
+    progs.append(Program("nc64", enums=[e4], structs=[S("nc64", 64, [
+        F("v", T_u(16), [(56, 8), (0, 8)]),                # byte swap across the word, top byte first
+        F("e", T_enum(e4), [(8, 2), (62 - 40, 2)]),        # enum over two ranges
+        F("s", T_i(8), [(32, 4), (40, 4)]),                # signed non-contiguous
+        F("k", T_u(3), [(16, 1), (18, 2)], array=(2, 4)),  # 16,18,19 / 20,22,23
+    ])], props=("C04", "C05", "C08", "C16")))
+    progs.append(Program("nc128", structs=[S("nc128", 128, [
+        F("t", T_u(12), [(0, 4), (60, 8)]),                # range crossing bit 64
+        F("h", T_u(64), [(96, 32), (64, 28), (92, 4)]),    # three ranges, native type, top bit
+        F("g", T_i(16), [(8, 8), (24, 8)]),
+    ])], props=("C04", "C05", "C16")))
+    progs.append(Program("nc24", structs=[S("nc24", 24, [
+        F("p", T_u(5), [(23, 1), (0, 4)]),                 # top exposed bit first
+        F("q", T_u(8), [(4, 2), (8, 2), (12, 2), (16, 2)]),
+    ])], props=("C04", "C11", "C16", "C12")))
+    if tier == "thorough":
+        progs.append(Program("nc33", structs=[S("nc33", 33, [
+            F("x", T_u(9), [(32, 1), (0, 8)]),
+            F("y", T_u(8), [(8, 1), (9, 1), (10, 1), (11, 1), (12, 1), (13, 1), (14, 1), (15, 1)]),   # 8 single bits
+            F("z", T_u(4), [(31, 1), (30, 1), (29, 1), (28, 1)]),                                     # descending bits
+        ])], props=("C04", "C11", "C16")))
+        progs.append(Program("nc128b", structs=[S("nc128b", 128, [
+            F("a", T_u(16), [(0, 4), (36, 12)], array=(2, 64)),      # second element's last range ends at bit 111
+            F("b", T_u(8), [(120, 8)], array=None),
+        ])], props=("C04", "C03", "C16")))
+    return progs
+
+
+def programs_signed(tier):
+    progs = []
+    progs.append(Program("sg16", structs=[S("sg16", 16, [
+        F("a", T_i(8), (0, 8)),
+        F("b", T_i(8), (8, 8)),
+    ])], props=("C05", "C16", "C13")))
+    progs.append(Program("sg32", structs=[S("sg32", 32, [
+        F("a", T_i(16), (3, 16)),
+        F("b", T_i(8), (20, 8)),
+        F("t", T_bool(), (31, 1)),
+    ])], props=("C05", "C16", "C12")))
+    progs.append(Program("sg128", structs=[S("sg128", 128, [
+        F("a", T_i(64), (32, 64)),
+        F("b", T_i(32), (0, 32)),
+        F("c", T_i(16), (100, 16)),
+    ])], props=("C05", "C16")))
+    progs.append(Program("sg128f", structs=[S("sg128f", 128, [
+        F("a", T_i(128), (0, 128)),
+    ])], props=("C05", "C16", "C13")))
+    progs.append(Program("sg64", structs=[S("sg64", 64, [
+        F("a", T_i(32), (32, 32)),
+        F("b", T_i(16), (0, 16), array=(2, None)),
+    ])], props=("C05", "C03", "C16")))
+    progs.append(Program("sg24", structs=[S("sg24", 24, [
+        F("a", T_i(8), (16, 8)),
+        F("b", T_i(16), (0, 16)),
+    ])], props=("C05", "C11", "C16", "C13")))
+    if tier == "thorough":
+        progs.append(Program("sg127", structs=[S("sg127", 127, [
+            F("a", T_i(64), (63, 64)),
+            F("b", T_i(32), (1, 32)),
+            F("c", T_i(8), [(40, 4), (33, 4)]),
+        ])], props=("C05", "C04", "C11", "C16")))
+        progs.append(Program("sg64f", structs=[S("sg64f", 64, [F("a", T_i(64), (0, 64))])], props=("C05", "C16")))
+    return progs
+
+
+def programs_defaults(tier):
+    progs = []
+    progs.append(Program("df32", structs=[S("df32", 32, [
+        F("a", T_u(8), (0, 8)), F("b", T_u(4), (12, 4), access="r"),
+    ], default=Default(0x8000F0AA, "="))], props=("C06", "C13", "C17")))
+    progs.append(Program("df16", structs=[S("df16", 16, [
+        F("a", T_u(8), (4, 8)),
+    ], default=Default(0xFFFF, ":"))], props=("C06", "C13")))
+    progs.append(Program("df24", structs=[S("df24", 24, [
+        F("a", T_u(8), (16, 8)), F("t", T_bool(), (0, 1)),
+    ], default=Default(0xABCDEF, "=", const_name="DF24_DEFAULT"))], props=("C06", "C11", "C13")))
+    progs.append(Program("df128", structs=[S("df128", 128, [
+        F("a", T_u(64), (64, 64)),
+    ], default=Default((1 << 127) | 0x1234, "=", const_name="DF128_DEFAULT"))], props=("C06", "C13")))
+    progs.append(Program("df7", structs=[S("df7", 7, [
+        F("a", T_u(3), (4, 3)),
+    ], default=Default(0x7F, ":"))], props=("C06", "C11", "C13")))
+    progs.append(Program("df64", structs=[S("df64", 64, [F("a", T_u(64), (0, 64))], default=Default(0))], props=("C06", "C13")))
+    return progs
+
+
+def programs_bases(tier):
+    """C06/C11: every base width (thorough) with one field touching the top bit"""
+    progs = []
+    if tier != "thorough":
+        return progs
+    for n in range(1, 128):
+        if n in NATIVE or n in ARB_Q:
+            continue
+        fields = [F("t", T_bool(), (n - 1, 1))]
+        if n >= 2:
+            fields.append(F("l", T_u(n - 1), (0, n - 1)))
+        progs.append(Program(f"bw{n}", structs=[S(f"bw{n}", n, fields)], props=("C06", "C11", "C01", "C02")))
+    return progs
+
+
+ENUM_BITS_Q = (1, 2, 3, 7, 8, 9, 15, 16, 17, 31, 32, 33, 63, 64)
+
+
+def programs_enums(tier):
+    progs = []
+    bits = ENUM_BITS_Q if tier == "quick" else tuple(range(1, 65))
+    for n in bits:
+        total = 1 << n
+        es = []
+        rep = "u64" if n >= 63 else None
+        # non-exhaustive, with the extreme discriminants, declared out of order
+        vals = [total - 1, 0] + ([total // 2] if total > 2 else [])
+        vals = list(dict.fromkeys(v for v in vals if 0 <= v < total))
+        if len(vals) == total:
+            vals = vals[:-1] or vals
+        if len(vals) < total:
+            es.append(Enum(f"En{n}", n, [(f"V{i}", v) for i, v in enumerate(vals)], exhaustive=None if n % 2 else "false", repr=rep))
+        if n <= 8 and (tier == "thorough" or n in (1, 2, 3, 8)):
+            order = list(range(total))
+            order = order[1:] + order[:1] if total > 1 else order       # rotated: the top value is NOT declared last
+            order[0], order[-1] = order[-1], order[0]
+            es.append(Enum(f"Ex{n}", n, [(f"V{v}", v) for v in order], exhaustive="true"))
+        progs.append(Program(f"en{n}", enums=es, props=("C07", "C10", "C16")))
+    # conditional enums: cfg-gated variants; exactly 2^N declared variants with a hole after cfg; more than 2^N declared
+    c2 = Enum("Ec2", 2, [("A", 0), ("B", 1), ("C", 2, "off"), ("D", 3)], exhaustive="conditional")
+    c2b = Enum("Ec2b", 2, [("A", 0), ("B", 1), ("C", 2, "off"), ("C2", 2, "on"), ("D", 3)], exhaustive="conditional")
+    c3 = Enum("Ec3", 3, [("A", 7), ("B", 1, "off"), ("C", 4, "on")], exhaustive="conditional")
+    progs.append(Program("encond", enums=[c2, c2b, c3], props=("C07", "C10", "C16")))
+    return progs
+
+
+def programs_enum_fields(tier):
+    progs = []
+    e1 = mk_enum("Ef1", 1, "true")
+    e2x = mk_enum("Ef2x", 2, "true")
+    e2 = mk_enum("Ef2", 2, None, values=[0, 1, 3])
+    e3 = mk_enum("Ef3", 3, "false", values=[7, 0, 5])
+    e8 = mk_enum("Ef8", 8, "false", values=[0, 0xFF, 0x80, 1])
+    e16 = mk_enum("Ef16", 16, None, values=[0xFFFF, 0, 0x8000])
+    e32 = mk_enum("Ef32", 32, "false", values=[0, 0xFFFFFFFF, 0x80000000])
+    e64 = mk_enum("Ef64", 64, None, values=[0, (1 << 64) - 1, 1 << 63], repr_="u64")
+    progs.append(Program("ef16", enums=[e1, e2x, e2, e3], structs=[S("ef16", 16, [
+        F("a", T_enum(e1), (0, 1)),
+        F("b", T_enum(e2x), (1, 2)),
+        F("c", T_enum(e2), (3, 2)),
+        F("d", T_enum(e3), (13, 3)),            # ends at the top bit
+        F("g", T_enum(e1), (5, 1), array=(4, 2)),
+    ])], props=("C08", "C16", "C12", "C13")))
+    progs.append(Program("ef128", enums=[e8, e16, e32, e64], structs=[S("ef128", 128, [
+        F("a", T_enum(e8), (1, 8)),              # native-width enum, unaligned, highest bit index 8
+        F("b", T_enum(e16), (16, 16)),
+        F("c", T_enum(e32), (32, 32)),
+        F("d", T_enum(e64), (64, 64)),           # ends at the top bit
+    ])], props=("C08", "C16")))
+    progs.append(Program("ef64", enums=[e8], structs=[S("ef64", 64, [
+        F("ops", T_enum(e8), (8, 8), array=(3, None)),      # native-width enum array NOT starting at bit 0
+        F("ch", T_enum(e8), (36, 8), array=(2, 12)),
+    ])], props=("C08", "C03", "C16")))
+    # nested bitfields
+    in8 = Struct("In8", 8, [F("lo", T_u(4), (0, 4)), F("hi", T_u(4), (4, 4))])
+    in4 = Struct("In4", 4, [F("x", T_u(3), (0, 3)), F("y", T_bool(), (3, 1))])
+    progs.append(Program("nest", structs=[in8, in4, S("nest", 32, [
+        F("n8", FT("nested", 8, in8), (8, 8)),
+        F("n4", FT("nested", 4, in4), (28, 4)),            # ends at the top bit
+        F("m4", FT("nested", 4, in4), [(0, 2), (20, 2)]),  # nested type over two ranges
+        F("a4", FT("nested", 4, in4), (2, 4), array=(1 + 1, None)),
+    ])], props=("C08", "C16")))
+    if tier == "thorough":
+        e8x = Enum("Ef8x", 8, [(f"V{v}", v) for v in range(256)], exhaustive="true")
+        e4m = mk_enum("Ef4m", 4, None, values=[9, 1, 15])
+        progs.append(Program("ef32x", enums=[e8x, e4m], structs=[S("ef32x", 32, [
+            F("x", T_enum(e8x), (24, 8)),
+            F("y", T_enum(e8x), (4, 8)),
+            F("m", T_enum(e4m), [(0, 2), (14, 2)]),
+            F("am", T_enum(e4m), [(16, 2), (20, 2)], array=(2, 2)),     # interleaved non-contiguous enum array
+        ])], props=("C08", "C04", "C16")))
+    return progs
+
+
+def programs_history(tier):
+    """C12: overlapping fields (legal, no builder) and disjoint ones, arrays included"""
+    progs = []
+    progs.append(Program("ov32", structs=[S("ov32", 32, [
+        F("whole", T_u(32), (0, 32)),
+        F("lo", T_u(16), (0, 16)),
+        F("mid", T_u(8), (12, 8)),
+        F("top", T_bool(), (31, 1)),
+        F("nib", T_u(4), (0, 4), array=(4, None)),
+    ])], props=("C12", "C16", "C14")))
+    progs.append(Program("ov24", structs=[S("ov24", 24, [
+        F("a", T_u(12), (0, 12)),
+        F("b", T_u(12), (12, 12)),
+        F("x", T_u(8), [(20, 4), (8, 4)]),
+        F("s", T_i(8), (8, 8)),
+    ])], props=("C12", "C11", "C16")))
+    return progs
+
+
+def programs_builder(tier):
+    progs = []
+    e2 = mk_enum("Eb2", 2, None, values=[0, 1, 3])
+    e1 = mk_enum("Eb1", 1, "true")
+    progs.append(Program("bl16", enums=[e2, e1], structs=[S("bl16", 16, [
+        F("e", T_enum(e2), (0, 2)),
+        F("arr", T_enum(e1), (2, 1), array=(3, None)),
+        F("ro", T_u(4), (8, 4), access="r"),
+        F("s", T_i(8), [(5, 3), (12, 4), (7, 1)], access="w"),   # bits 5,6,7(last),12..15
+    ], default=Default(0x8F00))], props=("C13", "C14", "C17", "C16")))
+    progs.append(Program("bl8", structs=[S("bl8", 8, [
+        F("a", T_u(3), (0, 3)), F("b", T_bool(), (3, 1)), F("c", T_u(4), (4, 4)),
+    ])], props=("C13", "C14")))                     # complete, no default
+    progs.append(Program("bl24", structs=[S("bl24", 24, [
+        F("a", T_u(12), (0, 12)), F("b", T_u(4), (12, 4), array=(3, None)),
+    ])], props=("C13", "C11", "C14")))            # arbitrary base, complete, ZERO start
+    progs.append(Program("bl128", structs=[S("bl128", 128, [
+        F("a", T_u(64), (0, 64)), F("b", T_i(32), (64, 32)), F("c", T_u(31), (96, 31)), F("t", T_bool(), (127, 1)),
+    ])], props=("C13", "C14")))
+    progs.append(Program("bl32", structs=[S("bl32", 32, [
+        F("a", T_u(32), (0, 32)),
+    ])], props=("C13",)))                           # one full-width field
+    progs.append(Program("bl16r", structs=[S("bl16r", 16, [
+        F("k", T_u(8), (0, 8), access="r"),        # read-only field with non-zero default bits, gap-free layout
+        F("v", T_u(4), (8, 4), array=(2, None)),
+    ], default=Default(0x5AC3))], props=("C13", "C14", "C17")))
+    progs.append(Program("bl9", structs=[S("bl9", 9, [
+        F("x", T_u(4), [(0, 1), (2, 1), (4, 1), (6, 1)], array=(2, 1), access="w"),
+        F("t", T_bool(), (8, 1)),
+    ], default=Default(0x1FF))], props=("C13", "C11", "C04")))
     return progs
 
 
 def all_programs(tier, seed=0):
     progs = []
-    progs += programs_c01_c02(tier)
+    progs += programs_contiguous(tier)
+    progs += programs_arrays(tier)
+    progs += programs_noncontig(tier)
+    progs += programs_signed(tier)
+    progs += programs_defaults(tier)
+    progs += programs_bases(tier)
+    progs += programs_enums(tier)
+    progs += programs_enum_fields(tier)
+    progs += programs_history(tier)
+    progs += programs_builder(tier)
+    ids = [p.pid for p in progs]
+    assert len(ids) == len(set(ids))
     return progs
